@@ -22,7 +22,7 @@ def prepare(ctx, props_file):
     for fn, (ok, text) in gen.items():
         c = False
         if ok:
-            c, out, _ = ctx.coqc(os.path.join(vlib.COQ, "Gen", fn))
+            c, out, _ = ctx.coqc_gen(os.path.join(vlib.COQ, "Gen", fn))
         okg = okg and ok and c
     ctx.obligation("register alias functions regenerated and compiled (Gen/RegDep*.v)", "translation", okg, "" if okg else str(gen)[:1500])
     ctx.compile_theorems(props_file)
